@@ -356,6 +356,9 @@ type interp struct {
 	// hooks
 	onCall   func(in *interp, st *state, call *ast.CallExpr, name string, recv AV, args []AV)
 	onAssign func(in *interp, st *state, lhs ast.Expr, v AV)
+	// exact: loops are iterated on their concrete state (no forgetting of counters); for engines that run
+	// a function on fully concrete control values
+	exact bool
 	// evalLeaf lets an engine give meaning to expressions the core does not model.
 	evalLeaf func(in *interp, st *state, e ast.Expr) (AV, bool)
 	// condHook may decide an otherwise unknown condition.
@@ -1060,7 +1063,12 @@ func (in *interp) execFor(x *ast.ForStmt, st *state, label string) []flow {
 		}
 		seen[k] = true
 		headCount++
-		if headCount > 48 && !widened {
+		if in.exact {
+			if headCount > 4096 {
+				in.overflow = true
+				break
+			}
+		} else if headCount > 48 && !widened {
 			widened = true
 			work = append(work, s)
 			continue
@@ -1093,9 +1101,15 @@ func (in *interp) execFor(x *ast.ForStmt, st *state, label string) []flow {
 					if x.Post != nil {
 						for _, pf := range in.execStmt(x.Post, ns) {
 							if pf.kind == flowNext {
-								work = append(work, in.havoc(pf.st, assigned, false))
+								if in.exact {
+									work = append(work, pf.st)
+								} else {
+									work = append(work, in.havoc(pf.st, assigned, false))
+								}
 							}
 						}
+					} else if in.exact {
+						work = append(work, ns)
 					} else {
 						work = append(work, in.havoc(ns, assigned, false))
 					}
